@@ -26,10 +26,22 @@ def units(tier, seed=0):
     rows = [n for n, e in ISA.items() if e.iset in ('T16', 'T32')]
     fams = set(ISA[n].family for n in rows)
     if tier == 'quick':
-        light = [n for n in rows if ISA[n].family != 'mul']  # (multiply rows are solver-heavy: thorough tier)
+        light = [n for n in rows if ISA[n].family not in ('mul', 'blk')]  # (multiply rows: thorough tier; block
+        # transfers: windowed register lists below)
         us += famcheck.family_units(fams, [7], T, only=light, tag='/operands', reg_values='distinct')
     else:
-        us += famcheck.family_units(fams, [7], T, only=rows, tag='/operands')
+        us += famcheck.family_units(fams, [7], T, only=[n for n in rows if ISA[n].family != 'blk'], tag='/operands')
+    from spec import isa_blk
+    for n in rows:
+        if ISA[n].family == 'blk':
+            for uname, opts in isa_blk.units(n, 7, 'std'):
+                label = uname.rsplit('/', 1)[1]
+                if tier == 'quick' and label not in ('LO', 'HI', 'SYM', 'SYMRN', 'ALL'):
+                    continue
+                opts = dict(opts, tables=T)
+                if tier == 'quick':
+                    opts['reg_values'] = 'distinct'
+                us.append(UnitSpec(uname + '/operands', 'vf.step', 'mk_step', opts, max_seconds=1800, weight=3))
     return us
 
 
